@@ -37,9 +37,9 @@ func NoPreempt(on bool) {}
 
 // ---- faults ----
 
-func Fault(domain, site string) bool     { return nextDecision("fault:"+domain+":"+site, 2) == 1 }
-func FaultBudget(domain string, n int)   { setBudget(domain, n) }
-func MapOrderAll(on bool)                {}
+func Fault(domain, site string) bool   { return nextDecision("fault:"+domain+":"+site, 2) == 1 }
+func FaultBudget(domain string, n int) { setBudget(domain, n) }
+func MapOrderAll(on bool)              {}
 
 // ---- non-forking boolean combinators ----
 
@@ -75,23 +75,37 @@ func Ite64(c bool, a, b int64) int64 {
 
 // ---- clock ----
 
-func Now() (sec, nsec int64)              { return clockNow() }
-func ClockMin(sec int64)                  {}
-func ClockMax(sec int64)                  {}
-func ClockUnbound()                       {}
-func ClockFreeze(on bool)                 { clockFreeze(on) }
-func TimeLE(s1, n1, s2, n2 int64) bool    { return s1 < s2 || (s1 == s2 && n1 <= n2) }
+func Now() (sec, nsec int64)           { return clockNow() }
+func ClockMin(sec int64)               {}
+func ClockMax(sec int64)               {}
+func ClockUnbound()                    {}
+func ClockFreeze(on bool)              { clockFreeze(on) }
+func TimeLE(s1, n1, s2, n2 int64) bool { return s1 < s2 || (s1 == s2 && n1 <= n2) }
 
 // ---- model introspection (symbolic runs only; natively they are inert) ----
 
-func DrawCount() int                 { return 0 }
-func IsDraw(b []byte, k int) bool    { return true }
-func DrawLen(k int) int              { return 0 }
-func SealCount() int                 { return 0 }
-func SealKey(i int) []byte           { return nil }
-func SealNonce(i int) []byte         { return nil }
-func SealPlain(i int) []byte         { return nil }
-func SealOut(i int) []byte           { return nil }
+func DrawCount() int                    { return 0 }
+func IsDraw(b []byte, k int) bool       { return true }
+func DrawLen(k int) int                 { return 0 }
+func SealCount() int                    { return 0 }
+func SealKey(i int) []byte              { return nil }
+func SealNonce(i int) []byte            { return nil }
+func SealPlain(i int) []byte            { return nil }
+func SealOut(i int) []byte              { return nil }
 func DependsOn(out, secret []byte) bool { return false }
-func IsConcrete(b []byte) bool       { return true }
-func Counter(name string) int64      { return 0 }
+func IsConcrete(b []byte) bool          { return true }
+func Counter(name string) int64         { return 0 }
+
+// ---- shadow page table introspection (symbolic runs only) ----
+
+func MemProt(b []byte) int        { return 0 }
+func MemLocked(b []byte) bool     { return false }
+func MemMapped(b []byte) bool     { return false }
+func MemRegions() int             { return 0 }
+func MemCount(what int) int       { return 0 }
+func MemWipedBeforeRelease() bool { return true }
+func MemOps(b []byte) string      { return "" }
+func MemOpsOf(k int) string       { return "" }
+func MemPeek(b []byte) []byte     { return nil }
+func MemPeekOf(k int) []byte      { return nil }
+func MemStateOf(k int) int        { return 0 }
